@@ -2,7 +2,7 @@
    Only pinned statements; proofs in Proofs/DegreeOk.v. *)
 From Coq Require Import List Bool Arith Permutation ZArith QArith.
 From GV Require Import Base.Outcome Base.AMap Model.GState Model.Creation Model.Query Model.Derived Spec.AGraph.
-From GV Require Import Proofs.WFDefs Proofs.QueryOk Proofs.DegreeOk Proofs.MatrixOk.
+From GV Require Import Proofs.WFDefs Proofs.QueryOk Proofs.DegreeOk Proofs.MatrixOk Proofs.DegreeMaps.
 Import ListNotations.
 Close Scope Q_scope.
 Open Scope nat_scope.
@@ -108,4 +108,56 @@ Section C09.
     WF g -> multi (sp g) = false -> matrix_triplets g = Ok tr ->
     NoDup (map (fun t : nat * nat * weight => (fst (fst t), snd (fst t))) tr).
   Proof. intros g tr. exact (matrix_positions_nodup teqb tltb g tr). Qed.
+
+  (* the six *_for_all_nodes maps, VALUES (their key lists: C20_degree_maps_total).  Whenever such a
+     call returns a map l (any state): the keys are the node names in node order and every entry
+     (x, d) carries the answer of the per-node function, per_node g x = Ok (Some d) *)
+  Theorem C09_degree_maps_values : forall (g : gstate),
+    (forall l, get_degree_for_all_nodes teqb tltb g = Ok l ->
+       map fst l = names g /\
+       forall x d, In (x, d) l -> In x (names g) /\ get_node_degree teqb tltb g x = Ok (Some d)) /\
+    (forall l, get_in_degree_for_all_nodes teqb g = Ok l ->
+       map fst l = names g /\
+       forall x d, In (x, d) l -> In x (names g) /\ get_node_in_degree teqb g x = Ok (Some d)) /\
+    (forall l, get_out_degree_for_all_nodes teqb g = Ok l ->
+       map fst l = names g /\
+       forall x d, In (x, d) l -> In x (names g) /\ get_node_out_degree teqb g x = Ok (Some d)) /\
+    (forall l, get_weighted_degree_for_all_nodes teqb tltb g = Ok l ->
+       map fst l = names g /\
+       forall x d, In (x, d) l -> In x (names g) /\ get_node_weighted_degree teqb tltb g x = Ok (Some d)) /\
+    (forall l, get_weighted_in_degree_for_all_nodes teqb g = Ok l ->
+       map fst l = names g /\
+       forall x d, In (x, d) l -> In x (names g) /\ get_node_weighted_in_degree teqb g x = Ok (Some d)) /\
+    (forall l, get_weighted_out_degree_for_all_nodes teqb g = Ok l ->
+       map fst l = names g /\
+       forall x d, In (x, d) l -> In x (names g) /\ get_node_weighted_out_degree teqb g x = Ok (Some d)).
+  Proof. exact (degree_maps_values teqb tltb). Qed.
+
+  (* ... and in closed form on a coherent state (with C09_degree / C09_in_degree / C09_out_degree) *)
+  Theorem C09_degree_maps_exact : forall (g : gstate),
+    WF g ->
+    get_degree_for_all_nodes teqb tltb g =
+      Ok (map (fun x => (x, out_deg teqb g x + in_deg teqb g x)) (names g)) /\
+    (directed (sp g) = true ->
+     get_in_degree_for_all_nodes teqb g = Ok (map (fun x => (x, in_deg teqb g x)) (names g)) /\
+     get_out_degree_for_all_nodes teqb g = Ok (map (fun x => (x, out_deg teqb g x)) (names g))).
+  Proof. exact (degree_maps_exact teqb tltb teqb_spec tltb_total). Qed.
+
+  Theorem C09_weighted_degree_map_exact : forall (g : gstate),
+    WF g -> all_real (flat_map snd (edges g)) ->
+    get_weighted_degree_for_all_nodes teqb tltb g =
+      Ok (map (fun x => (x, Some (w_out teqb g x + w_in teqb g x)%Z)) (names g)).
+  Proof. exact (weighted_degree_map_exact teqb tltb teqb_spec tltb_total). Qed.
 End C09.
+
+(* non-vacuity of C09_degree_maps_values, evaluated: an undirected multigraph with a self-loop and
+   two parallel edges; the degree map lists 5 -> 4 (loop counted twice), 2 -> 2, in node order *)
+Example C09_degree_maps_nonvacuous :
+  (let s := mkspecs false DErr MCreate true true SErr in
+   let g := fst (add_edges Z.eqb Z.ltb (new s)
+                  [mkedge 5 2 (Some 1) (@None Z); mkedge 2 5 (Some 4) None; mkedge 5 5 (Some 3) None]) in
+   get_degree_for_all_nodes Z.eqb Z.ltb g = Ok [(5, 4%nat); (2, 2%nat)] /\
+   get_node_degree Z.eqb Z.ltb g 5 = Ok (Some 4%nat) /\
+   get_weighted_degree_for_all_nodes Z.eqb Z.ltb g = Ok [(5, Some 11); (2, Some 5)])%Z.
+Proof. vm_compute. repeat split. Qed.
+
